@@ -173,16 +173,23 @@ def run(ctx, rep):
     lr = prog.adt('libcnb::layer::trait_api::LayerResult')
     lr_fields = sorted(f['name'] for v in lr['variants'] for f in v['fields'])
     wl_calls = [c for c in callers.get(WL, []) if c.name == WL and c.fn.crate == 'libcnb']
-    rep.floor('R3', 'writer_call_sites', len(wl_calls))
-    for c in wl_calls:
-        f = c.fn
-        a = [sl.operand(f, x) for x in c.args]
+    from .lib.tables import lifted_args
+    rows3 = []
+    seen_subj = {}
+    for c0 in wl_calls:
+        for f, c, a in lifted_args(prog, sl, c0, 'libcnb', stop_at=(hl.path,)):
+            rows3.append((f, c, a, c0))
+    rep.floor('R3', 'writer_call_sites', len(rows3))
+    for f, c, a, c0 in rows3:
         env, lcm, ex, sb = strip(a[2]), strip(a[3]), strip(a[4]), strip(a[5])
         kind = None
         for cbn in ('create', 'update'):
             if find_call(lcm, T + cbn) or find_call(env, T + cbn):
                 kind = cbn
-        subj = '%s' % f.path.split('::')[-1]
+        subj = '%s' % c0.fn.path.split('::')[-1]
+        n = seen_subj.get(subj, 0)
+        seen_subj[subj] = n + 1
+        subj = subj if n == 0 else '%s@%d' % (subj, n)
         lf = dict(lcm[3]) if lcm[0] == 'agg' else {}
         types_v = strip(lf.get('types', ('unknown',)))
         meta_v = strip(lf.get('metadata', ('unknown',)))
